@@ -24,7 +24,7 @@ prop("C17",
 )
 
 prop("C13",
-     coq=["gen/Extracted.v", "model/Route.v", "proofs/RouteProofs.v", "model/Flow.v", "model/Writer.v", "proofs/FlowProofs.v", "proofs/WriterProofs.v", "proofs/NoLoss.v", "proofs/WriterFifo.v", "chk/C13chk.v", "props/C13.v", "refute/C13.v"],
+     coq=["gen/Extracted.v", "model/Route.v", "proofs/RouteProofs.v", "model/Flow.v", "model/Writer.v", "proofs/FlowProofs.v", "proofs/WriterProofs.v", "proofs/NoLoss.v", "proofs/WriterFifo.v", "model/Handoff.v", "proofs/HandoffProofs.v", "model/LFShape.v", "model/HandoffShape.v", "chk/C13chk.v", "props/C13.v", "refute/C13.v"],
      n={"quick": 48, "thorough": 1000, "search": 200},
      shrink_fields=[],
      rule="stream cases: 1-3 publishers x 1-3 topics x 1-3 subscribers (v3.1.1/v5, Receive Maximum 1/2/unlimited) through clients.Manager over net.Pipe, "
@@ -36,9 +36,12 @@ prop("C13",
                 "(coq/gen/Extracted.v, regenerated on every run), under EVERY schedule of the routing workers each subscriber is handed exactly the messages it must get, "
                 "in publication order (prefix at any time, equality at quiescence); refute/C13.v shows the statement false for two workers. Tied to the code by the translator "
                 "(worker count) and by sequence-numbered streams through the real broker plus a gated-stub replay of the two-worker witness. The writer side is a theorem too (C13_writer_fifo): over every history of writer rounds, acknowledgements, disconnects and reconnects, "
-                "first transmissions so far ++ what still waits = what was handed to the session, in order. Partial: goroutine scheduling inside the Go runtime is modelled, not verified; the queue between routing and writer is C18's refinement theorem.",
+                "first transmissions so far ++ what still waits = what was handed to the session, in order. Across connections (model/Handoff.v, one step per critical section of the subscriber's lock: routing, transmission, connection end begin/end, set-up begin/end): C13_handoff_order - for EVERY interleaving, first transmissions so far ++ what is pending "
+                "(writer queue, persistence, senders held until the backlog is loaded, publishers waiting for the hand-over) = what the routing layer handed to the session, in that order; C13_handoff_no_stall - on an established connection whatever is pending is what the writer transmits next; "
+                "C13_handoff_shape - the translator re-reads the order of the corresponding calls in Acknowledge, onConnectionCloseStage2, writer.send, SignalOffline, SignalConnectionClose; refute/C13.v: the two orders the code had before (connection end: inversion; set-up: a message stranded in persistence). "
+                "Partial: goroutine scheduling inside the Go runtime is modelled, not verified; the queue between routing and writer is C18's refinement theorem.",
      level_note="Trusted: Coq kernel + vm_compute; tools/goextract reading publisherCount; the atomicity granularity of the routing model (take from channel, hand to one subscriber); the Go harness.",
-     trusted_base=["tools/goextract: publisherCount literal and its for-loop in NewMemProvider"],
+     trusted_base=["tools/goextract: publisherCount literal and its for-loop in NewMemProvider; callOrder of the hand-over functions"],
      assumptions=["a worker's hand-over to one subscriber (subscriber.Publish -> queue Add under the queue mutex) is atomic", "the inbound Go channel is FIFO"],
 )
 
